@@ -797,7 +797,7 @@ def gen_fstring(rng, depth):
             body += gen_raw_body(rng, delim, braces=True, maxlen=3) if rng.random() < 0.6 else gen_field(rng, depth, True)
         if ("]" + delim + "]") in body:
             body = body.replace("]" + delim + "]", "")
-        lead = rng.choice(["", "", "\n", "\n\n", "\r\n"])
+        lead = rng.choice(["", "", "", "", "\n", "\n\n", "\r\n", "\n\r\n"])
         return "#[" + delim + "[" + lead + body + "]" + delim + "]"
     prefix = rng.choice(["f", "f", "f", "rf", "fr", "t", "rt"])
     raw = "r" in prefix
@@ -837,7 +837,7 @@ def gen_form(rng, depth, in_field=False):
             return p + '"' + body + '"'
         if k < 0.9:
             delim = rng.choice(["", "", "x", "==", "a-b", "f", "t", "ft", "f x"])
-            lead = rng.choice(["", "", "\n", "\n\n", "\r\n", "\r"])
+            lead = rng.choice(["", "", "", "", "", "\n", "\n\n", "\r\n", "\r"])
             if delim == "f" or delim.startswith("f-"):
                 delim = "g" + delim
             return "#[" + delim + "[" + lead + gen_raw_body(rng, delim) + "]" + delim + "]"
